@@ -6,6 +6,7 @@ import json, os, shutil, subprocess, sys, glob
 
 VERIF = os.path.dirname(os.path.dirname(os.path.abspath(__file__)))
 src = sys.argv[1] if len(sys.argv) > 1 else "/tmp/seed"
+offset = int(sys.argv[2]) if len(sys.argv) > 2 else 0   # round 2: seeds are stored as <id>-<n+offset>
 rows = []
 for d in sorted(glob.glob(os.path.join(src, "C*"))):
     pid = os.path.basename(d)
@@ -17,7 +18,11 @@ for d in sorted(glob.glob(os.path.join(src, "C*"))):
         fires = ("check %s: FIRES" % pid) in out
         reports = [l.strip()[9:] for l in out.splitlines() if l.strip().startswith("violated ")]
         ok = all(flags.get(k) for k in ("demo passes on unchanged tree", "builds", "demo fails with change", "existing tests pass"))
-        dst = os.path.join(VERIF, "seeded", "%s-%d" % (pid, n))
+        dst = os.path.join(VERIF, "seeded", "%s-%d" % (pid, n + offset))
+        first = None
+        fr = os.path.join(d, "chk%d.out" % n)   # output of the first run of the check on this seed, before any strengthening
+        if os.path.exists(fr):
+            first = ("check %s: FIRES" % pid) in open(fr).read()
         if ok:
             os.makedirs(dst, exist_ok=True)
             shutil.copy(os.path.join(d, "patch%d.diff" % n), os.path.join(dst, "patch.diff"))
@@ -26,8 +31,13 @@ for d in sorted(glob.glob(os.path.join(src, "C*"))):
             meta["origin"] = "independent sub-agent given only the property text and a scratch worktree of /repo (nothing from /verif)"
             meta["confirmed_by"] = {"command": "bin/seedcheck.sh <dir> %d %s (scratch copy of /repo: demo on unchanged tree, apply patch, build, demo, existing tests, then the check)" % (n, pid), **{k.replace(" ", "_"): v for k, v in flags.items()}}
             meta["check_result"] = {"property_check_fires": fires, "reports": reports[:4]}
+            if first is not None:
+                meta["check_result"]["fired_on_first_run_before_strengthening"] = first
             json.dump(meta, open(os.path.join(dst, "meta.json"), "w"), indent=1)
-        rows.append((pid, n, ok, fires, reports[0][:120] if reports else ""))
-        print("%s-%d confirmed=%s fires=%s %s" % (pid, n, ok, fires, reports[0][:100] if reports else ""))
-json.dump([{"seed": "%s-%d" % (r[0], r[1]), "confirmed": r[2], "caught_by_own_check": r[3], "first_report": r[4]} for r in rows],
-          open(os.path.join(VERIF, "seeded", "SUMMARY.json"), "w"), indent=1)
+        rows.append((pid, n + offset, ok, fires, reports[0][:120] if reports else "", first))
+        print("%s-%d confirmed=%s fires=%s first_run=%s %s" % (pid, n + offset, ok, fires, first, reports[0][:100] if reports else ""))
+sp = os.path.join(VERIF, "seeded", "SUMMARY.json")
+old = json.load(open(sp)) if os.path.exists(sp) and offset else []
+new = [{"seed": "%s-%d" % (r[0], r[1]), "confirmed": r[2], "caught_by_own_check": r[3], "first_report": r[4], **({"fired_on_first_run": r[5]} if r[5] is not None else {})} for r in rows]
+names = {x["seed"] for x in new}
+json.dump(sorted([x for x in old if x["seed"] not in names] + new, key=lambda x: x["seed"]), open(sp, "w"), indent=1)
